@@ -77,7 +77,7 @@ def run_generic(ctx, schema, opcode, prop, n_quick, n_thorough, depth_quick, dep
     global OPCODE
     OPCODE = opcode
     th = ctx.tier == "thorough"
-    cases = gen_cases(ctx, n_thorough if th else n_quick, depth_thorough if th else depth_quick)
+    cases = gen_cases(ctx, n_thorough if th else n_quick * ctx.scale, depth_thorough if th else depth_quick)
     enc = [encode(env, e) for env, e in cases]
     impl = run_harness("dual", ["c " + " ".join(str(x) for x in c) for c in enc])
     model = coq_eval(RUNMOD, RUNFN, enc, ctx.work, shard=max(8, len(enc) // (NCPU * 2) + 1), tag=prop.lower())
